@@ -428,3 +428,81 @@ def twin_oracle(ops, out):
             diff = [n for n, x, y in zip(names, a[2] or (), b[2] or ()) if x != y]
             return "replayed/duplicated acks changed sender state after %s #%d: %s differ" % (a[0], i, ",".join(diff))
     return None
+
+
+# ---------------------------------------------------------------- send rate (C14), rate mode
+
+import struct
+
+_SR = re.compile(r"sr (?:reset=(?P<reset>\S+) )?X=(?P<X>\d+) max=(?P<max>\d+) mode=(?P<mode>\S+) plr=(?P<plr>\S+) nfe=(?P<nfe>\S+) "
+                 r"idle=(?P<idle>\d) rtts=(?P<rtts>\S+) rttms=(?P<rttms>\S+) rtoms=(?P<rtoms>\S+) rs=(?P<rs>\S+)")
+
+
+def _f(bits):
+    return struct.unpack(">d", struct.pack(">Q", int(bits, 16)))[0]
+
+
+def _as_u32(x):
+    if x != x:
+        return 0
+    if x <= 0:
+        return 0
+    if x >= 4294967295.0:
+        return 4294967295
+    return int(x)
+
+
+def rate_oracle(ops, out):
+    """RFC 5348 bounds on the implementation's SendRateComp observations."""
+    prev = None
+    MIN = 1472 // 64
+    for op, line in zip(ops, out):
+        if line.startswith(("PANIC", "HANG", "HARNESS")):
+            return "send rate computation crashed: %s" % line
+        m = _SR.match(line)
+        if not m:
+            prev = None if op.startswith("srnew") else prev
+            continue
+        cur = m.groupdict()
+        X, mx = int(cur["X"]), int(cur["max"])
+        t = op.split()
+        if mx >= 1472 and X > mx:
+            return "allowed rate %d exceeds the ceiling %d after `%s`" % (X, mx, op)
+        if prev is not None and t[0] == "srstep":
+            pX = int(prev["X"])
+            if t[2] == "-":
+                if X > max(pX, MIN):
+                    return "rate increased from %d to %d without feedback (`%s`)" % (pX, X, op)
+                if X != pX and X < MIN and mx >= MIN:
+                    return "no-feedback expiry lowered the rate to %d, below the s/64 floor" % X
+            elif prev["mode"] != "A":
+                loss = _f(t[4])
+                if prev["mode"].startswith("T") and cur["mode"].startswith("T"):
+                    tcp = int(cur["mode"][1:])
+                    if X > max(tcp, MIN):
+                        return "rate %d above the throughput equation value %d (and the floor) after loss was reported" % (X, tcp)
+                    if cur["rtts"] != "-":
+                        rtt = _f(cur["rtts"])
+                        p = loss
+                        import math
+                        try:
+                            f_p = math.sqrt(p * 2.0 / 3.0) + 12.0 * math.sqrt(p * 3.0 / 8.0) * p * (1.0 + 32.0 * p * p)
+                            d = rtt * f_p
+                            ref = _as_u32(1472.0 / d) if d != 0 else 4294967295
+                        except (ValueError, ZeroDivisionError, OverflowError):
+                            ref = None
+                        if ref is not None and tcp != ref:
+                            return "throughput equation value %d differs from s/(R*f(p)) = %d for rtt %.6f, p %.6g" % (tcp, ref, rtt, p)
+                if prev["mode"].startswith("S") and cur["mode"].startswith("S") and cur["rtts"] != "-":
+                    rtt = _f(cur["rtts"])
+                    init = _as_u32(4380.0 / rtt) if rtt != 0 else 4294967295
+                    if X > max(2 * pX, init):
+                        return "slow start: rate went from %d to %d (more than doubling, initial rate %d)" % (pX, X, init)
+                # RTT moving average
+                if cur["rtts"] != "-":
+                    sample = float(int(t[2])) / 1000.0
+                    exp = sample if prev["rtts"] == "-" else (1.0 - 0.1) * _f(prev["rtts"]) + 0.1 * sample
+                    if struct.pack(">d", exp) != struct.pack(">d", _f(cur["rtts"])):
+                        return "RTT estimate %r is not the 0.9/0.1 average %r" % (_f(cur["rtts"]), exp)
+        prev = cur
+    return None
